@@ -1,4 +1,10 @@
-(* C15: model of antismash/common/all_orfs.py: scan_orfs and find_intergenic_areas.
+(* C15: model of antismash/common/all_orfs.py: scan_orfs, find_intergenic_areas,
+   _find_cross_origin_intergenic, find_all_orfs (chunk extraction incl. windows starting before the
+   origin, both strands with reverse complement), create_feature_from_location (label, translation
+   with the first residue forced to M), Record.get_aa_translation_from_location,
+   Record.get_cds_features_within_location(part, with_overlapping=True), Feature.__lt__, and
+   Biopython's location.extract / reverse_complement / translate (standard table, unambiguous DNA);
+   followed by the decidable specification evaluated on the implementation's outputs.
    DNA is a list of character codes; the codon tables come from Gen/Tables_gen.v. *)
 From ASV Require Export Base Loc.
 From ASV.Gen Require Import Tables_gen.
@@ -100,11 +106,279 @@ Definition find_intergenic_areas (start end_ : Z) (genes : list (Z * Z)) (min_le
   let areas := if last <? end_ then areas ++ [(Z.max start last, end_)] else areas in
   filter (fun a => min_length <=? snd a - fst a) areas.
 
+(* ---------- sequences: slices, reverse complement, extraction (Biopython location.extract) ---------- *)
+(* Python seq[a:b] for 0 <= a *)
+Definition slice {A} (l : list A) (a b : Z) : list A := firstn (Z.to_nat (b - a)) (skipn (Z.to_nat a) l).
+
+(* Bio.Seq complement of one IUPAC letter, case preserved; other characters unchanged *)
+Definition comp_upper (c : Z) : Z :=
+  match c with
+  | 65 => 84 | 84 => 65 | 67 => 71 | 71 => 67      (* A T C G *)
+  | 77 => 75 | 75 => 77 | 82 => 89 | 89 => 82      (* M K R Y *)
+  | 86 => 66 | 66 => 86 | 72 => 68 | 68 => 72      (* V B H D *)
+  | _ => c                                          (* W S N X and everything else *)
+  end.
+Definition comp (c : Z) : Z :=
+  if (97 <=? c) && (c <=? 122) then comp_upper (c - 32) + 32 else comp_upper c.
+Definition revcomp (l : list Z) : list Z := rev (map comp l).
+
+(* location.extract(genome): the parts in the order given, each part reverse-complemented on its own
+   when its strand is -1, concatenated *)
+Definition extract_part (g : list Z) (p : part) : list Z :=
+  let t := slice g (ps p) (pe p) in if pst p =? -1 then revcomp t else t.
+Definition extract (g : list Z) (l : loc) : list Z := flat_map (extract_part g) l.
+
+(* the chunk of find_all_orfs: seq[start:end], or for a window starting before the origin
+   seq[len + start:] + seq[:end] *)
+Definition chunk (g : list Z) (start end_ : Z) : list Z :=
+  if 0 <=? start then slice g start end_
+  else skipn (Z.to_nat (zlen g + start)) g ++ firstn (Z.to_nat end_) g.
+(* the text handed to scan_orfs for a strand *)
+Definition window (g : list Z) (start end_ direction : Z) : list Z :=
+  if direction =? -1 then revcomp (chunk g start end_) else chunk g start end_.
+
+(* ---------- translation (Bio.Seq.translate on unambiguous DNA, standard/bacterial table) ---------- *)
+Definition base_idx (c : Z) : option Z :=
+  match upper c with 84 => Some 0 | 67 => Some 1 | 65 => Some 2 | 71 => Some 3 | _ => None end.
+(* FFLLSSSSYY**CC*WLLLLPPPPHHQQRRRRIIIMTTTTNNKKSSRRVVVVAAAADDEEGGGG over TCAG *)
+Definition aa_table : list Z :=
+  [70;70;76;76;83;83;83;83;89;89;42;42;67;67;42;87;76;76;76;76;80;80;80;80;72;72;81;81;82;82;82;82;
+   73;73;73;77;84;84;84;84;78;78;75;75;83;83;82;82;86;86;86;86;65;65;65;65;68;68;69;69;71;71;71;71].
+(* a codon with a letter outside ACGT is X here (Biopython resolves some ambiguous codons; the
+   correspondence for translations is run on ACGT/acgt genomes only) *)
+Definition translate_codon (a b c : Z) : Z :=
+  match base_idx a, base_idx b, base_idx c with
+  | Some i, Some j, Some k => nth (Z.to_nat (16 * i + 4 * j + k)) aa_table 88
+  | _, _, _ => 88
+  end.
+Fixpoint translate (to_stop : bool) (l : list Z) : list Z :=
+  match l with
+  | a :: b :: c :: rest =>
+    let aa := translate_codon a b c in
+    if to_stop && (aa =? 42) then [] else aa :: translate to_stop rest
+  | _ => []
+  end.
+(* Record.get_aa_translation_from_location *)
+Definition aa_translation (g : list Z) (l : loc) : res (list Z) :=
+  if zlen g <? lend l then Err E_Value else
+  let extracted := filter (fun c => negb (c =? 45)) (extract g l) in
+  let t := translate true extracted in
+  let t := match t with [] => translate false extracted | _ => t end in
+  Ok (map (fun c => if existsb (Z.eqb c) [42; 66; 74; 79; 85; 90] then 88 else c) t).
+
+(* ---------- create_feature_from_location: label, translation with a forced first M ---------- *)
+Fixpoint dec_digits (fuel : nat) (n : Z) : list Z :=
+  match fuel with
+  | O => [48 + n]
+  | S f => if n <? 10 then [48 + n] else dec_digits f (n / 10) ++ [48 + n mod 10]
+  end.
+(* str(n) for n >= 0; log2 n steps always suffice *)
+Definition str_of_Z (n : Z) : list Z := dec_digits (Z.to_nat (Z.log2 n)) n.
+(* format(n, "0{width}") *)
+Definition pad0 (width n : Z) : list Z :=
+  let s := str_of_Z n in repeat 48 (Z.to_nat (width - zlen s)) ++ s.
+Definition allorf_prefix : list Z := [97; 108; 108; 111; 114; 102; 95].   (* "allorf_" *)
+Definition orf_label (record_len : Z) (l : loc) : list Z :=
+  let digits := zlen (str_of_Z record_len) in
+  match l with
+  | p0 :: p1 :: _ => allorf_prefix ++ pad0 digits (ps p0 + 1) ++ [95] ++ pad0 digits (pe p1)
+  | _ => allorf_prefix ++ pad0 digits (lstart l + 1) ++ [95] ++ pad0 digits (lend l)
+  end.
+
+Record feature := mkFeature { floc : loc; flabel : list Z; ftrans : list Z }.
+
+Definition create_feature (g : list Z) (l : loc) : res feature :=
+  let label := orf_label (zlen g) l in
+  do t <- aa_translation g l;
+  match t with
+  | [] => Err E_Index                       (* translation[0] *)
+  | c :: r => Ok (mkFeature l label (if c =? 77 then t else 77 :: r))
+  end.
+
+(* ---------- Feature.__lt__ ---------- *)
+Definition comparator_start (l : loc) : Z :=
+  if bridges l then
+    match split_bridging l with
+    | Ok (_, head) => lmin (map ps head) - lmax (map pe head)
+    | Err _ => lstart l   (* raises ValueError in Python; never for the locations built here *)
+    end
+  else lstart l.
+Definition feature_lt (a b : loc) : bool :=
+  let sa := comparator_start a in
+  let sb := comparator_start b in
+  (sa <? sb) || ((sa =? sb) && (llen a <? llen b)).
+
+(* ---------- Record.get_cds_features_within_location(part, with_overlapping=True) ---------- *)
+Fixpoint bisect_left_go {A} (fuel : nat) (lt_x : A -> bool) (l : list A) (lo hi : nat) : nat :=
+  match fuel with
+  | O => lo
+  | S f =>
+    if (lo <? hi)%nat then
+      let mid := ((lo + hi) / 2)%nat in
+      match nth_error l mid with
+      | Some a => if lt_x a then bisect_left_go f lt_x l (S mid) hi else bisect_left_go f lt_x l lo mid
+      | None => lo
+      end
+    else lo
+  end.
+Fixpoint back_while (test : loc -> bool) (l : list loc) (index : nat) : nat :=
+  match index with
+  | O => O
+  | S i => match nth_error l i with
+           | Some f => if test f then back_while test l i else index
+           | None => index
+           end
+  end.
+Fixpoint within_go (location : loc) (fs : list loc) : list loc :=
+  match fs with
+  | [] => []
+  | f :: rest =>
+    if contains location f then f :: within_go location rest
+    else if overlap f location then f :: within_go location rest
+    else match rest with
+         | nxt :: _ => if contains f nxt then within_go location rest else []
+         | [] => []
+         end
+  end.
+(* cds: the record's CDS features in the record's own order *)
+Definition cds_within (cds : list loc) (p : part) : list loc :=
+  match cds with
+  | [] => []
+  | _ =>
+    let p := if ps p <? 0 then mkPart 0 (Z.max 1 (pe p)) S_None else p in
+    let location := [p] in
+    let index := bisect_left_go (S (length cds)) (fun f => feature_lt f location) cds 0 (length cds) in
+    let index := back_while (fun f => lstart f =? ps p) cds index in
+    let index := back_while (fun f => overlap f location) cds index in
+    within_go location (skipn index cds)
+  end.
+
+(* ---------- _find_cross_origin_intergenic ---------- *)
+Definition gene_span (l : loc) : Z * Z := (lstart l, lend l).
+
+(* the loop that looks for the areas touching the origin; `assert not x` passes for None and for 0 *)
+Fixpoint origin_scan (n : Z) (areas : list (Z * Z)) (i : Z) (pre post : option Z) : res (option Z * option Z) :=
+  match areas with
+  | [] => Ok (pre, post)
+  | a :: rest =>
+    do post' <- (if fst a =? 0 then
+                   match post with
+                   | Some k => if k =? 0 then Ok (Some i) else Err E_Assert
+                   | None => Ok (Some i)
+                   end
+                 else Ok post);
+    do pre' <- (if snd a =? n then
+                  match pre with
+                  | Some k => if k =? 0 then Ok (Some i) else Err E_Assert
+                  | None => Ok (Some i)
+                  end
+                else Ok pre);
+    origin_scan n rest (i + 1) pre' post'
+  end.
+
+Definition list_pop {A} (l : list A) (i : Z) : list A :=
+  firstn (Z.to_nat i) l ++ skipn (S (Z.to_nat i)) l.
+Definition list_set {A} (l : list A) (i : Z) (x : A) : res (list A) :=
+  if i <? zlen l then Ok (firstn (Z.to_nat i) l ++ x :: skipn (S (Z.to_nat i)) l) else Err E_Index.
+
+Definition cross_origin_intergenic (n : Z) (cds : list loc) (area : loc) (min_length max_overlap : Z)
+  : res (list (Z * Z)) :=
+  let areas := flat_map (fun p => find_intergenic_areas (ps p) (pe p) (map gene_span (cds_within cds p))
+                                                        min_length max_overlap) area in
+  do pp <- origin_scan n areas 0 None None;
+  match pp with
+  | (Some pre_i, Some post_i) =>
+    let pre := nth (Z.to_nat pre_i) areas (0, 0) in
+    let post := nth (Z.to_nat post_i) areas (0, 0) in
+    let areas' := list_pop areas post_i in
+    let start := fst pre - n in
+    if negb (start <? 0) then Err E_Assert else
+    list_set areas' pre_i (start, snd post)
+  | _ => Ok areas
+  end.
+
+(* ---------- find_all_orfs ---------- *)
+(* `if area:` - a CDSCollection defines neither __bool__ nor __len__, so every area is true *)
+Definition intergenic_for (n : Z) (cds : list loc) (area : option loc) (min_length max_overlap : Z)
+  : res (list (Z * Z)) :=
+  match area with
+  | Some aloc =>
+    if is_compound aloc then cross_origin_intergenic n cds aloc min_length max_overlap
+    else match aloc with
+         | [p] => Ok (find_intergenic_areas (lstart aloc) (lend aloc) (map gene_span (cds_within cds p))
+                                            min_length max_overlap)
+         | _ => Err E_Attribute
+         end
+  | None => Ok (find_intergenic_areas 0 n (map gene_span cds) min_length max_overlap)
+  end.
+
+Definition area_orfs (g : list Z) (min_length : Z) (a : Z * Z) : list loc :=
+  let '(start, end_) := a in
+  scan_orfs (window g start end_ 1) 1 start min_length (Some (zlen g)) ++
+  scan_orfs (window g start end_ (-1)) (-1) start min_length (Some (zlen g)).
+
+Definition find_all_orfs (g : list Z) (cds : list loc) (area : option loc) (min_length max_overlap : Z)
+  : res (list feature) :=
+  do areas <- intergenic_for (zlen g) cds area min_length max_overlap;
+  if existsb (fun a => zlen g <? snd a) areas then Err E_Assert else
+  do feats <- mapM (create_feature g) (flat_map (area_orfs g min_length) areas);
+  Ok (sort_by (fun a b => feature_lt (floc a) (floc b)) feats).
+
+(* ---------- decidable specification, evaluated on the implementation's output ---------- *)
+Definition kind_eqb (a b : kind) : bool :=
+  match a, b with KStart, KStart | KStop, KStop | KOther, KOther => true | _, _ => false end.
+Definition kind_is (ks : list kind) (j : nat) (k : kind) : bool :=
+  match nth_error ks j with Some x => kind_eqb x k | None => false end.
+(* (s, e) is an ORF of the frame: the bounded-quantifier form of Proofs.is_orf *)
+Definition is_orf_b (ks : list kind) (s e : nat) : bool :=
+  if (s <? e)%nat then
+  if kind_is ks s KStart then
+  if kind_is ks e KStop then
+  if forallb (fun j => negb (kind_is ks j KStop)) (seq (S s) (e - S s)) then
+    forallb (fun j => if kind_is ks j KStart
+                      then existsb (fun m => kind_is ks m KStop) (seq (S j) (s - S j)) else true) (seq 0 s)
+  else false else false else false else false.
+Definition orfs_spec (ks : list kind) : list (nat * nat) :=
+  filter (fun se => is_orf_b ks (fst se) (snd se)) (list_prod (seq 0 (length ks)) (seq 0 (length ks))).
+
+(* record positions of a location in transcription order *)
+Definition zrange (a len : Z) : list Z := map (fun i => a + Z.of_nat i) (seq 0 (Z.to_nat len)).
+Definition part_positions (p : part) : list Z :=
+  let r := zrange (ps p) (pe p - ps p) in if pst p =? -1 then rev r else r.
+Definition positions (l : loc) : list Z := flat_map part_positions l.
+(* where the ORF with window coordinates [a, b] (b inclusive) lies on the record *)
+Definition expected_positions (direction offset n : Z) (rl : option Z) (c : Z * Z) : list Z :=
+  let '(a, b) := c in
+  let raw := if direction =? 1 then zrange (offset + a) (b - a + 1)
+             else rev (zrange (offset + n - 1 - b) (b - a + 1)) in
+  match rl with Some m => map (fun x => x mod m) raw | None => raw end.
+Definition loc_is_orf (direction offset n : Z) (rl : option Z) (c : Z * Z) (l : loc) : bool :=
+  forallb (fun p => pst p =? direction) l && zl_eqb (positions l) (expected_positions direction offset n rl c).
+
+Definition b2z (b : bool) : Z := if b then 1 else 0.
+(* [spec_ok (minimum as in the property text: length >= minimum); guard (no ORF of exactly the
+   minimum length in the window); spec_ok with length > minimum (what the code does)] *)
+Definition spec_scan (sequ : list Z) (direction offset minimum : Z) (rl : option Z) (out : list loc) : list Z :=
+  let useq := map upper sequ in
+  let n := zlen useq in
+  let all := flat_map (fun frame => map (orf_coords (Z.of_nat frame)) (orfs_spec (kinds (skipn frame useq))))
+                      [0%nat; 1%nat; 2%nat] in
+  let want_ge := filter (fun c => minimum <=? snd c - fst c + 1) all in
+  let want_gt := filter (fun c => minimum <? snd c - fst c + 1) all in
+  let matches (want : list (Z * Z)) :=
+    (length out =? length want)%nat &&
+    forallb (fun c => existsb (loc_is_orf direction offset n rl c) out) want &&
+    forallb (fun l => existsb (fun c => loc_is_orf direction offset n rl c l) want) out in
+  let sorted := sorted_le (map loc_key out) in
+  [b2z (sorted && matches want_ge); b2z (length want_ge =? length want_gt)%nat; b2z (sorted && matches want_gt)].
+
 (* ---------- encoding ---------- *)
 Definition dGene : dec (Z * Z) := dPair dZ dZ.
+Definition dScan := dPair (dPair (dList dZ) (dPair dZ dZ)) (dPair dZ (dOpt dZ)).
+Definition eFeature (f : feature) : list Z := eLoc (floc f) ++ eList (fun c => [c]) (flabel f) ++ eList (fun c => [c]) (ftrans f).
 Definition run_C15 (fn : Z) (l : list Z) : list Z :=
   match fn with
-  | 1 => match dPair (dPair (dList dZ) (dPair dZ dZ)) (dPair dZ (dOpt dZ)) l with
+  | 1 => match dScan l with
          | Some ((sequ, (direction, offset), (minimum, rl)), []) =>
            eList eLoc (scan_orfs sequ direction offset minimum rl)
          | _ => bad_input end
@@ -112,5 +386,13 @@ Definition run_C15 (fn : Z) (l : list Z) : list Z :=
          | Some ((s, e, (genes, (ml, pad))), []) =>
            eList (fun a => [fst a; snd a]) (find_intergenic_areas s e genes ml pad)
          | _ => bad_input end
+  | 3 => match dPair (dPair (dList dZ) (dList dLoc)) (dPair (dOpt dLoc) (dPair dZ dZ)) l with
+         | Some ((g, cds, (area, (ml, ov))), []) =>
+           eRes (eList eFeature) (find_all_orfs g cds area ml ov)
+         | _ => bad_input end
+  | 11 => match dPair dScan (dList dLoc) l with
+          | Some (((sequ, (direction, offset), (minimum, rl)), out), []) =>
+            spec_scan sequ direction offset minimum rl out
+          | _ => bad_input end
   | _ => bad_input
   end.
